@@ -88,11 +88,21 @@ WaMicro(s, t) ==
             LET s1 == [s EXCEPT !.C[f] = [cnt |-> IF M[f].kind = "wares" THEN n ELSE -1, own |-> 2,
                                           moved |-> FALSE, fcalls |-> 0]]
             IN SetTop(Create(s1, f), t,
-                      [fr EXCEPT !.pc = IF M[f].ts # 0 THEN "FuTscInc" ELSE "_c3", !.q = Order(f)])
+                      [fr EXCEPT !.pc = IF M[f].ts # 0 THEN "FuTscInc" ELSE "_c3", !.q = Order(f), !.y = 0])
        [] P = <<"comb", "_c3">> ->    \* input.then(callback, kImmediateInvoker) for the next input
-            IF fr.q = <<>> THEN DropOwner(Goto(s, t, "_pop"), t, f)      \* the local `shared` dies
-            ELSE LET i == fr.q[1] IN      \* (the callback lambda captures the shared_ptr: one more owner)
-                 Push(SetTop([s EXCEPT !.C[f].own = @ + 1], t, [fr EXCEPT !.pc = "_c4", !.q = Tail(fr.q), !.g = M[f].ys[i]]), t,
+            \* fr.y = inputs visited so far.  Tuple overloads (rev = 1) visit the inputs through detail::forEach,
+            \* whose visitor lambda holds the shared_ptr and is passed BY VALUE down the recursion: 2 copies while the
+            \* first input is visited, one more per further input (when_all moved the local `shared` into the visitor)
+            IF fr.q = <<>>
+            THEN LET extra == IF M[f].rev = 1 THEN 1 + n ELSE 0      \* the visitor copies die ...
+                     local == IF M[f].rev = 1 /\ M[f].kind = "wares" THEN 0 ELSE 1   \* ... and the local `shared`
+                 IN DropOwners(Goto(s, t, "_pop"), t, f, extra + local)
+            ELSE LET i == fr.q[1]
+                     visitor == IF M[f].rev = 0 THEN 0
+                                ELSE IF fr.y = 0 THEN (IF M[f].kind = "wares" THEN 1 ELSE 2) ELSE 1
+                 IN    \* (the callback lambda captures the shared_ptr: one more owner)
+                 Push(SetTop([s EXCEPT !.C[f].own = @ + 1 + visitor], t,
+                             [fr EXCEPT !.pc = "_c4", !.q = Tail(fr.q), !.g = M[f].ys[i], !.y = fr.y + 1]), t,
                       ThenFrame(M[f].ins[i], M[f].ys[i]))
        [] P = <<"comb", "_c4">> -> Push(Goto(s, t, "_c3"), t, DecRefFrame(fr.g))   \* the Future<void> then() returned dies
        [] P = <<"comb", "_pop">> -> Pop(s, t)
